@@ -754,18 +754,22 @@ func extend(id, explain string, rules ...ruleFn) {
 
 func init() {
 	extend("C02", "Also (P12-now-applied, P12-now-all): every evaluating command closes open ranges under --now over ALL records it was given before anything is totalled; (P17-clock-fields) the date and the time of the evaluation instant are read from the same unconverted clock value.", ruleP12NowApplied, ruleP12NowAll, ruleP17ClockFields)
+	extend("C02", "(P13-reduce) narrowing a record to its matching entries keeps its should-total (and date, summary), so should-total and diff under a filter are those of the records selected.", ruleP13Reduce)
 	extend("C17", "Also (P12-now-applied, P12-now-all): --now is applied to all records of the evaluation, not to a subset.", ruleP12NowApplied, ruleP12NowAll)
 	extend("C03", "Also (P07-renumber): the blocks the reconciler positions its edits by carry file-global line numbers on every return of the parallel engine.", ruleP07Renumber)
-	extend("C04", "Also (P07-renumber, P11-determine-first): blocks carry file-global line numbers (an edit lands in the record it was computed for), and the indentation of an inserted entry is that of the record's first indented line (otherwise the added line is read as a summary continuation).", ruleP07Renumber, ruleP11DetermineFirst)
+	extend("C04", "(P03-concat-position) the further lines of a multi-line stop summary go directly under the line the first one was appended to. Also (P07-renumber, P11-determine-first): blocks carry file-global line numbers (an edit lands in the record it was computed for), and the indentation of an inserted entry is that of the record's first indented line (otherwise the added line is read as a summary continuation).", ruleP07Renumber, ruleP11DetermineFirst, ruleP03ConcatPosition)
 	extend("C12", "Also (P17-calendar-days): the day split of `today` and every other relative day is computed with PlusDays on the date, not by shifting the clock instant by 24 hours.", ruleP17CalendarDays)
 	extend("C13", "Also (P17-calendar-days): --yesterday / --tomorrow and friends are calendar days, not 24-hour offsets of the instant.", ruleP17CalendarDays)
 	extend("C03", "Also (P08-io-verbatim): WriteToFile puts exactly the reconciler's text on disk.", ruleP08IoVerbatim)
 	extend("C08", "Also (P08-io-verbatim): app.ReadFile hands the bytes on disk to the parser unaltered and WriteToFile writes its argument unaltered.", ruleP08IoVerbatim)
 	extend("C05", "Also (P05-fresh-read, P08-io-verbatim): each reconciliation re-reads the target from disk (no remembered contents), so the validated text is the text that gets replaced.", ruleP05FreshRead, ruleP08IoVerbatim)
 	extend("C08", "(P07-head, P07-chunks) the parallel engine cuts the unaltered input into contiguous chunks and carries each batch's first block to the merge step.", ruleP07Head, ruleP07Chunks)
+	extend("C08", "(P07-renumber) block line numbers are file-global on every return of the parallel engine; (P03-linewrites, P03-lineending) for the clause 'a mutating operation that changes nothing writes back the identical file': existing lines are only written where a command is defined to change them, and an existing line ending is never replaced.", ruleP07Renumber, ruleP03LineWrites, ruleP03LineEnding)
 	extend("C08", "(P08-blank) a line is blank iff it consists of spaces and tabs only.", ruleP08Blank)
-	extend("C01", "(P08-blank) as under C08; (P16-date-strict, P16-duration-parts, P16-date-separators) as under C16.", ruleP08Blank, ruleP16DateStrict, ruleP16DurationParts, ruleP16DateSeparators)
+	extend("C01", "(P08-blank) as under C08; (P16-date-strict, P16-duration-parts, P16-date-separators, P16-order: a range is rejected exactly when its end is before its start, whatever the day shifts) as under C16.", ruleP08Blank, ruleP16DateStrict, ruleP16DurationParts, ruleP16DateSeparators, ruleP16Order)
 	extend("C18", "(P09-first-summary-line) the layout decision about the first summary line is taken on the raw text, never on its styled rendering.", ruleP09FirstSummaryLine)
 	extend("C09", "(P09-first-summary-line) the first entry-summary line is left out only when the raw line is empty. Also (P18-nostyle-applied): print applies --no-style before it obtains the serialiser, so the unstyled output carries no escape sequences.", ruleP18NoStyleApplied, ruleP09FirstSummaryLine)
+	extend("C09", "(P18-format) the text serialiser wraps the unchanged text of dates, values, summaries and tags in styling only, so the unstyled print output carries the file's own text.", ruleP18Format)
+	extend("C06", "(P17-err) in app/cli and service no error of a time computation is discarded while the possibly-nil time is used (a nil dereference is a crash).", ruleP17Err)
 	extend("C10", "(P10-char-units) no byte length of a string is used as error position or length; (P10-format) no format string of a printf-style call contains data (source line, file name, message). Also (P07-errmerge, P07-merge-order): every error list produced by a worker or by re-parsing carried text reaches the merged list, carried text first.", ruleP07ErrMerge, ruleP07MergeOrderAll, ruleP10Format, ruleP10CharUnits)
 }
